@@ -7,6 +7,12 @@ Only statements live here; the proofs are in CueVerif/Proofs/{Semver,Mvs}.lean.
 import CueVerif.Proofs.Semver
 import CueVerif.Proofs.Mvs
 import CueVerif.Proofs.Work
+import CueVerif.Proofs.MvsReq
+import CueVerif.Proofs.MvsFifo
+import CueVerif.Proofs.MvsDown
+import CueVerif.Proofs.MvsOrder
+import CueVerif.Proofs.Queue
+import CueVerif.Proofs.VersionsMax
 namespace CueVerif.C14
 open CueVerif
 
@@ -107,6 +113,187 @@ example : (Mvs.runFifo (fun n => if n = (0,1) then [(1,1),(2,1)] else if n = (1,
     else if n = (2,1) then [(3,2)] else if n = (3,2) then [(1,1)] else []) 10 (Mvs.init [(0,1)])).sel 3 = 2 := by
   decide
 
+
+/-! ### Upgrade, UpgradeAll, Req (mvs.go; transcribed in Model/MvsOps.lean)
+
+`Mvs.IsSel g roots sel` says `sel` is the per-path maximum over the nodes reachable from the
+roots: the specification of a build list, independent of any traversal. -/
+
+/-- What every complete run of the concurrent traversal computes is the selection in the sense
+of `IsSel` … -/
+theorem C14_terminal_isSel (g : Mvs.Graph) (roots : List Mvs.Node) (s : Mvs.St)
+    (h : Mvs.Run g roots s) (ht : Mvs.Terminal s) : Mvs.IsSel g roots s.sel :=
+  Mvs.terminal_isSel g roots s h ht
+
+/-- … and there is only one. -/
+theorem C14_selection_unique (g : Mvs.Graph) (roots : List Mvs.Node) (s t : Nat → Nat)
+    (hs : Mvs.IsSel g roots s) (ht : Mvs.IsSel g roots t) : ∀ p, s p = t p :=
+  Mvs.isSel_unique g roots s t hs ht
+
+/-- `buildList` with ANY upgrade callback (this covers `UpgradeAll` and `Upgrade`) never
+selects a lower version than `BuildList` does.  `hnone`: the version "none" has no
+requirements (`buildList` never calls `Required` for it). -/
+theorem C14_up_never_lowers (g : Mvs.Graph) (up : Mvs.Node → Mvs.Node) (roots : List Mvs.Node)
+    (s t : Nat → Nat) (hnone : ∀ p, g (p, 0) = [])
+    (hs : Mvs.IsSel g roots s) (ht : Mvs.IsSel (Mvs.upGraph g up) roots t) : ∀ p, s p ≤ t p :=
+  Mvs.up_never_lowers g up roots s t hnone hs ht
+
+/-- `Upgrade(target, reqs, ups…)` (override list + `upgradeTo` callback) never lowers a
+selected version … -/
+theorem C14_upgrade_never_lowers (g : Mvs.Graph) (target : Mvs.Node) (ups : List Mvs.Node)
+    (s t : Nat → Nat) (ht0 : target.2 ≠ 0) (hnone : ∀ p, g (p, 0) = [])
+    (hs : Mvs.IsSel g [target] s) (ht : Mvs.IsSel (Mvs.upgradeGraph g target ups) [target] t) :
+    ∀ p, s p ≤ t p :=
+  Mvs.upgrade_never_lowers g target ups s t ht0 hnone hs ht
+
+/-- … and selects at least every requested version, whether or not the target required the
+path before. -/
+theorem C14_upgrade_selects_requested (g : Mvs.Graph) (target : Mvs.Node) (ups : List Mvs.Node)
+    (t : Nat → Nat) (ht0 : target.2 ≠ 0)
+    (ht : Mvs.IsSel (Mvs.upgradeGraph g target ups) [target] t) (u : Mvs.Node) (hu : u ∈ ups) :
+    u.2 ≤ t u.1 :=
+  Mvs.upgrade_selects_requested g target ups t ht0 ht u hu
+
+/-- `UpgradeAll`: every module met by the upgraded traversal is selected at least at the
+version `reqs.Upgrade` returns for it. -/
+theorem C14_upgradeAll_selects_latest (g : Mvs.Graph) (target : Mvs.Node)
+    (latest : Mvs.Node → Mvs.Node) (t : Nat → Nat)
+    (ht : Mvs.IsSel (Mvs.upgradeAllGraph g target latest) [target] t) (m : Mvs.Node)
+    (hm : Mvs.Reach (Mvs.upgradeAllGraph g target latest) [target] m) (hp : m.1 ≠ target.1) :
+    (latest m).2 ≤ t (latest m).1 :=
+  Mvs.upgradeAll_selects_latest g target latest t ht m hm hp
+
+-- non-vacuity (a test on one graph, not the property): the target requires B1; upgrading
+-- C (not required before) to C2 and B to B3: `upgradeList` appends C@none, the callback maps
+-- B1 ↦ B3 and C@none ↦ C2
+example :
+    Mvs.buildListUp (Mvs.upgradeGraph (fun n => if n = (0, 9) then [(1, 1)] else []) (0, 9)
+      [(2, 2), (1, 3)]) 10 (0, 9) = some [(0, 9), (1, 3), (2, 2)] := by decide
+
+/-- **Req is sufficient.**  For every graph (cyclic or not), every `base` whose paths are in
+the build list, and every fuel with which the transcription of `Req` terminates: the graph
+in which the main module requires exactly the returned list has the same selection, i.e.
+the same build list.  (`list` is the build list `Req` starts from.) -/
+theorem C14_req_sufficient (g : Mvs.Graph) (fuel : Nat) (main : Mvs.Node) (base : List Nat)
+    (sel : Nat → Nat) (list min : List Mvs.Node)
+    (hsel : Mvs.IsSel g [main] sel) (hbl : Mvs.IsBuildList sel list)
+    (hbase : ∀ p ∈ base, sel p ≠ 0)
+    (h : Mvs.reqCore g fuel main base list = some min) :
+    Mvs.IsSel (Mvs.override g main min) [main] sel :=
+  Mvs.req_sufficient g fuel main base sel list min hsel hbl hbase h
+
+/-- **Req is minimal.**  No element whose path is not in `base` can be dropped: without it
+the graph no longer has the selection `sel` (the dropped module is not even reachable). -/
+theorem C14_req_minimal (g : Mvs.Graph) (fuel : Nat) (main : Mvs.Node) (base : List Nat)
+    (sel : Nat → Nat) (list min : List Mvs.Node) (hbl : Mvs.IsBuildList sel list)
+    (h : Mvs.reqCore g fuel main base list = some min) (r : Mvs.Node) (hr : r ∈ min)
+    (hb : r.1 ∉ base) :
+    ¬ Mvs.Reach (Mvs.override g main (min.filter fun x => x != r)) [main] r ∧
+    ¬ Mvs.IsSel (Mvs.override g main (min.filter fun x => x != r)) [main] sel :=
+  ⟨Mvs.req_minimal_reach g fuel main base sel list min hbl h r hr hb,
+   Mvs.req_minimal g fuel main base sel list min hbl h r hr hb⟩
+
+/-- `base` is honoured, and only selected versions are listed. -/
+theorem C14_req_base (g : Mvs.Graph) (fuel : Nat) (main : Mvs.Node) (base : List Nat)
+    (sel : Nat → Nat) (list min : List Mvs.Node) (hbl : Mvs.IsBuildList sel list)
+    (h : Mvs.reqCore g fuel main base list = some min) :
+    (∀ p ∈ base, (p, sel p) ∈ min) ∧ (∀ r ∈ min, r.2 = sel r.1) :=
+  Mvs.req_base g fuel main base sel list min hbl h
+
+/-- The final sort of `Req` only permutes the list (so, by `C14_req_order`, the three
+theorems above hold for the sorted list as well). -/
+theorem C14_req_sort (n : Mvs.Node) (l : List Mvs.Node) : n ∈ Mvs.sortByPath l ↔ n ∈ l :=
+  Mvs.mem_sortByPath n l
+
+-- non-vacuity (a test on one graph): A → B1, C1; B1 → C1; C1 → B1 (a cycle).
+-- Req keeps B1 alone; with base = [C] it keeps C1 alone.
+example :
+    let g : Mvs.Graph := fun n =>
+      if n = (0, 9) then [(1, 1), (2, 1)] else if n = (1, 1) then [(2, 1)]
+      else if n = (2, 1) then [(1, 1)] else []
+    Mvs.buildList g 10 (0, 9) = some [(0, 9), (1, 1), (2, 1)] ∧
+    Mvs.reqCore g 10 (0, 9) [] [(0, 9), (1, 1), (2, 1)] = some [(1, 1)] ∧
+    Mvs.reqCore g 10 (0, 9) [2] [(0, 9), (1, 1), (2, 1)] = some [(2, 1)] := by decide
+
+/-- The executable schedule the driver answers with (`buildListUp`: FIFO order, one runner,
+then `Graph.BuildList`) returns THE build list of the graph it is given: the result is the
+list of selected versions of the unique selection `IsSel`, target first.  Hence every
+`mvs` / `build` / `upgrade` / `upgradeall` answer of the driver is the specified build list. -/
+theorem C14_fifo_is_selection (g : Mvs.Graph) (fuel : Nat) (target : Mvs.Node)
+    (list : List Mvs.Node) (ht0 : target.2 ≠ 0) (h : Mvs.buildListUp g fuel target = some list) :
+    ∃ sel, Mvs.IsSel g [target] sel ∧ Mvs.IsBuildList sel list ∧
+      list.head? = some (target.1, sel target.1) :=
+  Mvs.buildListUp_spec g fuel target list ht0 h
+
+/-- **`Req` end to end** — `BuildList`, Algorithm R and the final sort, as one function of the
+graph: for every graph in which "none" has no requirements, every `base` and every fuel with
+which the transcription terminates, the returned list (i) contains the selected version of
+every `base` path, (ii) is sufficient: the main module requiring exactly it yields the same
+selection, (iii) is minimal: dropping an element outside `base` changes the selection. -/
+theorem C14_req_spec (g : Mvs.Graph) (fuel : Nat) (main : Mvs.Node) (base : List Nat)
+    (out : List Mvs.Node) (hm0 : main.2 ≠ 0) (hnone : ∀ p, g (p, 0) = [])
+    (h : Mvs.req g fuel main base = some out) :
+    ∃ sel, Mvs.IsSel g [main] sel ∧
+      (∀ p ∈ base, (p, sel p) ∈ out) ∧
+      ((∀ p ∈ base, sel p ≠ 0) → Mvs.IsSel (Mvs.override g main out) [main] sel) ∧
+      (∀ r ∈ out, r.1 ∉ base →
+        ¬ Mvs.IsSel (Mvs.override g main (out.filter fun x => x != r)) [main] sel) :=
+  Mvs.req_spec g fuel main base out hm0 hnone h
+
+-- non-vacuity (a test): the scenario "blog" of mvs_test.go restricted to B, C, D:
+-- A → B1, C2; B1 → D3; C2 → D4.  Req A = B1 C2; with base D: B1 C2 D4.
+example :
+    let g : Mvs.Graph := fun n =>
+      if n = (0, 9) then [(1, 1), (2, 2)] else if n = (1, 1) then [(3, 3)]
+      else if n = (2, 2) then [(3, 4)] else []
+    Mvs.req g 12 (0, 9) [] = some [(1, 1), (2, 2)] ∧
+    Mvs.req g 12 (0, 9) [3] = some [(1, 1), (2, 2), (3, 4)] := by decide
+
+/-- **`Downgrade` stays within the requested versions and never upgrades** — for every graph,
+every set of known versions `avail` (what `reqs.Previous` enumerates), every list of requested
+downgrades and every fuel with which the transcription terminates: the result `out` is the
+build list (`IsBuildList t out`, `t` the selection) of the target with a replaced requirement
+list `l`; every path named in `downs` is selected at most at the requested version (or not
+at all: `t p = 0`), and no path of the original build list is selected above its original
+version `s0 p`.  (Maximality of the result is NOT proved: see notes/C14.md.) -/
+theorem C14_downgrade_bound (g : Mvs.Graph) (avail : List Mvs.Node) (fuel : Nat)
+    (target : Mvs.Node) (downs out : List Mvs.Node) (ht0 : target.2 ≠ 0)
+    (hnone : ∀ p, g (p, 0) = [])
+    (h : Mvs.downgrade g avail fuel target downs = some out) :
+    ∃ (s0 t : Nat → Nat) (l : List Mvs.Node),
+      Mvs.IsSel g [target] s0 ∧ Mvs.IsSel (Mvs.override g target l) [target] t ∧
+      Mvs.IsBuildList t out ∧
+      (∀ d ∈ downs, d.1 ≠ target.1 → t d.1 ≤ d.2) ∧
+      (∀ p, p ≠ target.1 → s0 p ≠ 0 → t p ≤ s0 p) :=
+  Mvs.downgrade_bound g avail fuel target downs out ht0 hnone h
+
+-- non-vacuity (a test): A → B2, C2; B2 → D2; B1 → D1; C2 → D1.  Downgrading D to D1
+-- excludes B2 (it requires D2), `Previous` offers B1, which is compatible: A B1 C2 D1.
+example :
+    let g : Mvs.Graph := fun n =>
+      if n = (0, 9) then [(1, 2), (2, 2)] else if n = (1, 2) then [(3, 2)]
+      else if n = (1, 1) then [(3, 1)] else if n = (2, 2) then [(3, 1)] else []
+    Mvs.downgrade g [(1, 1), (1, 2), (2, 2), (3, 1), (3, 2)] 12 (0, 9) [(3, 1)]
+      = some [(0, 9), (1, 1), (2, 2), (3, 1)] := by decide
+
+/-- **`Graph.BuildList`'s order is a function of the graph alone.**  The Go code ranges over
+the map `g.selected` (unspecified order) and sorts; for any two iteration orders `e1`, `e2`
+of the map (the same entries, one per path) the returned list is the same: the selected
+versions of the root paths in root order, then everything else strictly increasing by path. -/
+theorem C14_buildlist_order (roots : List Mvs.Node) (sel : Nat → Nat) (e1 e2 : List Mvs.Node)
+    (h1 : e1.Pairwise fun a b => a.1 ≠ b.1) (h2 : e2.Pairwise fun a b => a.1 ≠ b.1)
+    (h : ∀ n, n ∈ e1 ↔ n ∈ e2) :
+    Mvs.graphBuildList roots sel e1 = Mvs.graphBuildList roots sel e2 ∧
+    Mvs.StrictByPath (Mvs.sortByPath (e1.filter fun x => !(roots.any fun r => r.1 == x.1))) :=
+  ⟨Mvs.graphBuildList_order_indep roots sel e1 e2 h1 h2 h, Mvs.graphBuildList_sorted roots e1 h1⟩
+
+-- non-vacuity (a test): two roots of one path, three further paths, two iteration orders
+example :
+    Mvs.graphBuildList [(0, 9), (0, 3), (4, 1)] (fun p => if p = 0 then 9 else if p = 4 then 2 else p)
+      [(3, 3), (0, 9), (4, 2), (1, 1), (2, 2)] = [(0, 9), (4, 2), (1, 1), (2, 2), (3, 3)] ∧
+    Mvs.graphBuildList [(0, 9), (0, 3), (4, 1)] (fun p => if p = 0 then 9 else if p = 4 then 2 else p)
+      [(2, 2), (4, 2), (1, 1), (0, 9), (3, 3)] = [(0, 9), (4, 2), (1, 1), (2, 2), (3, 3)] := by decide
+
 /-! ### the work set's termination detection (par.Work.Do / runner) -/
 
 /-- A runner returns only when nothing is left: in every reachable state in which some
@@ -136,5 +323,84 @@ example : Work.Run 2 1 { todo := 0, waiting := 2, phases := [.done, .woken] } :=
   have s7 := Work.Run.step s6 (Work.Step.wokenEmpty _ 1 (by decide) (by decide))
   have s8 := Work.Run.step s7 (Work.Step.idleEmpty _ 0 (by decide) (by decide))
   simpa [Work.init, Work.enter, Work.broadcast, Work.signal] using s8
+
+/-! ### par.Queue (queue.go; Model/Queue.lean): any interleaving of Add / Idle / worker steps -/
+
+/-- In every reachable state at most `maxActive` items are running, exactly `active` of them,
+and a non-empty backlog means every slot is busy (the comment on `queueState.active`). -/
+theorem C14_queue_bounded (max : Nat) (s : Queue.St) (h : Queue.Run max s) :
+    s.running.length = s.active ∧ s.active ≤ max ∧ (s.backlog ≠ [] → s.active = max) :=
+  let i := Queue.run_inv max s h
+  ⟨i.running_len, i.bounded, i.backlog_full⟩
+
+/-- Every added item is in exactly one place — queued, running or done — as often as it was
+added: nothing is lost, nothing runs twice. -/
+theorem C14_queue_once (max : Nat) (s : Queue.St) (h : Queue.Run max s) (i : Nat) :
+    s.added.count i = s.backlog.count i + s.running.count i + s.done.count i :=
+  (Queue.run_inv max s h).once i
+
+/-- The idle channel is closed only while nothing is active and nothing is queued, and a
+closed channel is never closed again (no panic). -/
+theorem C14_queue_idle (max : Nat) (hm : 0 < max) (s : Queue.St) (h : Queue.Run max s) :
+    (s.idle = some true → s.active = 0 ∧ s.backlog = [] ∧ s.running = []) ∧ s.panic = false := by
+  have i := Queue.run_inv max s h
+  refine ⟨fun hc => ?_, i.no_panic⟩
+  have h0 := i.idle_closed hc
+  refine ⟨h0, ?_, ?_⟩
+  · cases hb : s.backlog with
+    | nil => rfl
+    | cons x xs =>
+      have := i.backlog_full (by rw [hb]; exact List.cons_ne_nil _ _)
+      omega
+  · have := i.running_len
+    rw [h0] at this
+    exact List.length_eq_zero_iff.mp this
+
+/-- The executable replay used to validate recorded implementation traces takes steps of the
+model only. -/
+theorem C14_queue_replay_is_run (max : Nat) (s t : Queue.St) (e : Queue.Ev)
+    (hs : Queue.Run max s) (h : Queue.apply max s e = some t) : Queue.Run max t :=
+  Queue.Run.step hs (Queue.apply_step max s t e h)
+
+-- non-vacuity: maxActive = 1; Add 1, Add 2 (queued), Idle() (open), 1 ends (2 starts),
+-- 2 ends: the channel is closed, both are done
+example :
+    (do let s ← Queue.apply 1 Queue.init (.add 1); let s ← Queue.apply 1 s (.add 2)
+        let s ← Queue.apply 1 s .idle; let s ← Queue.apply 1 s (.fin 1)
+        let s ← Queue.apply 1 s (.fin 2); pure (s.idle, s.done, s.active)) =
+      some (some true, [2, 1], 0) := by decide
+
+/-! ### module.Versions.Max and the comparison mvs derives from it (Model/VersionsMax.lean) -/
+
+/-- `Versions.Max` returns one of its arguments and meets the contract `mvs.Reqs.Max` states:
+`Max(v, "none") = v`, and the main module's version "" wins on either side. -/
+theorem C14_versions_max_contract (v w : Semver.Str) :
+    (Semver.versionsMax v w = v ∨ Semver.versionsMax v w = w) ∧
+    Semver.versionsMax v Semver.noneStr = v ∧ Semver.versionsMax Semver.noneStr v = v ∧
+    Semver.versionsMax [] v = [] ∧ Semver.versionsMax v [] = [] :=
+  ⟨Semver.versionsMax_mem v w, Semver.versionsMax_none_right v, Semver.versionsMax_none_left v,
+   Semver.versionsMax_main_left v, Semver.versionsMax_main_right v⟩
+
+/-- The comparison `buildList` derives from two `Max` calls is `semver.Compare` on ordinary
+versions (neither "none" nor ""), provided versions that compare equal are equal strings
+(canonical versions without build metadata — what `module.NewVersion` admits) … -/
+theorem C14_mvs_cmp_is_compare (a b : Semver.Str) (ha : a ≠ Semver.noneStr) (ha' : a ≠ [])
+    (hb : b ≠ Semver.noneStr) (hb' : b ≠ []) (hcanon : Semver.compare' a b = .eq → a = b) :
+    Semver.mvsCmp a b = Semver.compare' a b :=
+  Semver.mvsCmp_ordinary a b ha ha' hb hb' hcanon
+
+/-- … with "none" below and "" above every other version: versions are ranks of a linear
+order with a bottom and a top, as the MVS model assumes. -/
+theorem C14_mvs_cmp_ends (v : Semver.Str) :
+    (v ≠ Semver.noneStr → Semver.mvsCmp v Semver.noneStr = .gt ∧ Semver.mvsCmp Semver.noneStr v = .lt) ∧
+    (v ≠ [] → Semver.mvsCmp [] v = .gt ∧ Semver.mvsCmp v [] = .lt) :=
+  ⟨Semver.mvsCmp_none v, Semver.mvsCmp_main v⟩
+
+-- non-vacuity (tests): Max("v1.2.0", "v1.10.0") = "v1.10.0"; cmp("v1.0.0", "v1.0.0+b") is
+-- `lt` in BOTH directions — the hypothesis `hcanon` is needed (build metadata)
+example : Semver.versionsMax ("v1.2.0".toList.map (·.toNat)) ("v1.10.0".toList.map (·.toNat))
+    = "v1.10.0".toList.map (·.toNat) := by decide
+example : Semver.mvsCmp ("v1.0.0".toList.map (·.toNat)) ("v1.0.0+b".toList.map (·.toNat)) = .lt ∧
+    Semver.mvsCmp ("v1.0.0+b".toList.map (·.toNat)) ("v1.0.0".toList.map (·.toNat)) = .lt := by decide
 
 end CueVerif.C14
